@@ -11,10 +11,17 @@ contract(
     sig={'text': 'str', 'name': 'str?', 'version': 'str?', 'encoding_chars': 'dict[str]?', 'validation_level': 'any',
          'reference': 'any', 'force_varies': 'bool'},
     returns='Element',
-    ensures=[('fresh', 'is_fresh(result)')],
+    ensures=[('fresh', 'is_fresh(result)'), ('detached', 'result._parent is None and result._traversal_parent is None')],
     raises=_RAISES, modifies=[], allocates=True, interface=True, verify=False,
-    notes='assumed at the call sites of parse_fields (a fresh Field or an exception)',
+    notes='assumed at the call sites of parse_fields (a fresh, detached Field or an exception)',
 )
+
+def _items_ok(lst, fresh='is_new'):
+    # (is_new: allocated since the function under verification was entered - for loop invariants; is_fresh: allocated during
+    #  the call - for postconditions, which are also read at call sites)
+    return ('all(list_at({0}, k)._parent is None and list_at({0}, k)._traversal_parent is None and {1}(list_at({0}, k)) '
+            'for k in range(len({0})))').format(lst, fresh)
+
 
 _V = 'version if version is not None else global_("hl7apy:_DEFAULT_VERSION")'
 _L = 'validation_level if validation_level is not None else global_("hl7apy:_DEFAULT_VALIDATION_LEVEL")'
@@ -38,11 +45,20 @@ contract(
          'references': 'dict[dict[any]]?', 'force_varies': 'bool'},
     returns='list[Element]',
     requires=['implies(encoding_chars is not None, dhas(encoding_chars, "FIELD") and dhas(encoding_chars, "REPETITION"))'],
-    ensures=[('fresh', 'is_fresh(result)')],
+    ensures=[('fresh', 'is_fresh(result)'),
+             # what `segment.children = parse_fields(...)` needs: the fields are new, detached and pairwise different objects
+             ('items_detached', _items_ok('result', 'is_fresh')),
+             ('items_distinct', 'pairwise_distinct(result)')],
     raises=dict(_RAISES, UnsupportedVersion={}, InvalidEncodingChars={}, UnknownValidationLevel={}),
     modifies=[], allocates=True,
-    loops={0: {'header': 'for (index, field) in enumerate(splitted_fields)', 'inv': [], 'modifies': ['fields[]'], 'allocates': True},
-           1: {'header': 'for rep in field.split(repetition_sep)', 'inv': [], 'modifies': ['fields[]'], 'allocates': True}},
+    loops={0: {'header': 'for (index, field) in enumerate(splitted_fields)',
+               'inv': [('items_detached', _items_ok('fields')), ('items_distinct', 'pairwise_distinct(fields)'),
+                       ('list_is_new', 'is_new(fields)')],
+               'modifies': ['fields[]'], 'allocates': True},
+           1: {'header': 'for rep in field.split(repetition_sep)',
+               'inv': [('items_detached', _items_ok('fields')), ('items_distinct', 'pairwise_distinct(fields)'),
+                       ('list_is_new', 'is_new(fields)')],
+               'modifies': ['fields[]'], 'allocates': True}},
     local_types={'fields': 'list[Element]'},
     call_asserts={'parse_field': _FIELD_SITE},
     properties=['C02', 'C17', 'C18', 'C03'],
@@ -52,14 +68,14 @@ contract(
     'hl7apy.parser:parse_component',
     sig={'text': 'str', 'name': 'str?', 'datatype': 'str?', 'version': 'str?', 'encoding_chars': 'dict[str]?',
          'validation_level': 'any', 'reference': 'any'},
-    returns='Element', ensures=[('fresh', 'is_fresh(result)')],
+    returns='Element', ensures=[('fresh', 'is_fresh(result)'), ('detached', 'result._parent is None and result._traversal_parent is None')],
     raises=_RAISES, modifies=[], allocates=True, interface=True, verify=False,
     notes='assumed at the call site of parse_components',
 )
 contract(
     'hl7apy.parser:parse_subcomponent',
     sig={'text': 'str', 'name': 'str?', 'datatype': 'str?', 'version': 'str?', 'validation_level': 'any', 'reference': 'any'},
-    returns='Element', ensures=[('fresh', 'is_fresh(result)')],
+    returns='Element', ensures=[('fresh', 'is_fresh(result)'), ('detached', 'result._parent is None and result._traversal_parent is None')],
     raises=_RAISES, modifies=[], allocates=True, interface=True, verify=False,
     notes='assumed at the call site of parse_subcomponents',
 )
@@ -81,10 +97,11 @@ contract(
          'references': 'dict[dict[any]]?'},
     returns='list[Element]',
     requires=['implies(encoding_chars is not None, dhas(encoding_chars, "COMPONENT"))'],
-    ensures=[('fresh', 'is_fresh(result)')],
+    ensures=[('fresh', 'is_fresh(result)'), ('items_detached', _items_ok('result', 'is_fresh')), ('items_distinct', 'pairwise_distinct(result)')],
     raises=dict(_RAISES, UnsupportedVersion={}, InvalidEncodingChars={}, UnknownValidationLevel={}),
     modifies=[], allocates=True,
-    loops={0: {'header': 'for (index, component) in enumerate(text.split(component_sep))', 'inv': [],
+    loops={0: {'header': 'for (index, component) in enumerate(text.split(component_sep))',
+               'inv': [('items_detached', _items_ok('components')), ('items_distinct', 'pairwise_distinct(components)'), ('list_is_new', 'is_new(components)')],
                'modifies': ['components[]'], 'allocates': True}},
     local_types={'components': 'list[Element]'},
     call_asserts={'parse_component': _COMP_SITE},
@@ -103,12 +120,142 @@ contract(
          'references': 'dict[dict[any]]?'},
     returns='list[Element]',
     requires=['implies(encoding_chars is not None, dhas(encoding_chars, "SUBCOMPONENT"))'],
-    ensures=[('fresh', 'is_fresh(result)')],
+    ensures=[('fresh', 'is_fresh(result)'), ('items_detached', _items_ok('result', 'is_fresh')), ('items_distinct', 'pairwise_distinct(result)')],
     raises=dict(_RAISES, UnsupportedVersion={}, InvalidEncodingChars={}, UnknownValidationLevel={}),
     modifies=[], allocates=True,
-    loops={0: {'header': 'for (index, subcomponent) in enumerate(text.split(subcomp_sep))', 'inv': [],
+    loops={0: {'header': 'for (index, subcomponent) in enumerate(text.split(subcomp_sep))',
+               'inv': [('items_detached', _items_ok('subcomponents')), ('items_distinct', 'pairwise_distinct(subcomponents)'), ('list_is_new', 'is_new(subcomponents)')],
                'modifies': ['subcomponents[]'], 'allocates': True}},
     local_types={'subcomponents': 'list[Element]'},
     call_asserts={'parse_subcomponent': _SUB_SITE},
     properties=['C02', 'C17', 'C18'],
+)
+
+# ---- parse_segment: the Segment is built with the caller's version / level / reference, its fields are parsed with the same
+# and with the segment's own structure, and the parsed fields are attached in order (contract of `x.children = <list>`)
+contract(
+    'hl7apy.core:Segment.__init__',
+    sig={'self': 'Segment', 'name': 'str?', 'parent': 'Element?', 'reference': 'any', 'version': 'str?',
+         'validation_level': 'int?', 'traversal_parent': 'Element?'},
+    returns='none',
+    ensures=[('version', 'implies(version is not None, self.version == version)'),
+             ('level', 'implies(validation_level is not None, self.validation_level == validation_level)'),
+             ('detached', 'implies(parent is None and traversal_parent is None, self._parent is None and self._traversal_parent is None)')],
+    raises={'Exception': {}},
+    modifies=['self.*'], allocates=True, interface=True, verify=False,
+    notes='assumed where parse_segment builds the segment (Element.__init__, which does the threading, is proved; the rest of '
+          'Segment.__init__ reads a dynamically typed table entry - see k4_structure)',
+)
+
+_SEG_CTOR_SITE = [
+    ('name_is_the_three_letter_id', 'arg(0) == substr(old(text), 0, 3)'),
+    ('version_passed_on', 'kwarg("version") == old(%s)' % _V),
+    ('level_passed_on', 'kwarg("validation_level") == old(%s)' % _L),
+    ('reference_passed_on', 'kwarg("reference") == old(reference)'),
+]
+_SEG_FIELDS_SITE = [
+    ('prefix_is_the_segment_id', 'arg(1) == substr(old(text), 0, 3)'),
+    ('version_passed_on', 'arg(2) == old(%s)' % _V),
+    ('encoding_chars_passed_on', 'implies(old(encoding_chars) is not None, arg(3) is old(encoding_chars))'),
+    ('level_passed_on', 'arg(4) == old(%s)' % _L),
+    # C18: the field references come from the structure of the segment just built (the profile's, when one was given)
+    ('structure_of_the_segment', 'arg(5) is segment.structure_by_name'),
+]
+contract(
+    'hl7apy.parser:parse_segment',
+    sig={'text': 'str', 'version': 'str?', 'encoding_chars': 'dict[str]?', 'validation_level': 'any', 'reference': 'any'},
+    returns='Element',
+    requires=['implies(encoding_chars is not None, dhas(encoding_chars, "FIELD") and dhas(encoding_chars, "REPETITION"))',
+              # the process-wide defaults are complete delimiter sets (set_default_encoding_chars checks them)
+              'dhas(global_("hl7apy:_DEFAULT_ENCODING_CHARS"), "FIELD") and dhas(global_("hl7apy:_DEFAULT_ENCODING_CHARS"), "REPETITION") and '
+              'dhas(global_("hl7apy:_DEFAULT_ENCODING_CHARS_27"), "FIELD") and dhas(global_("hl7apy:_DEFAULT_ENCODING_CHARS_27"), "REPETITION")'],
+    ensures=[('fresh', 'is_fresh(result)')],
+    raises={'Exception': {}},
+    modifies=None, allocates=True,
+    call_asserts={'Segment': _SEG_CTOR_SITE, 'parse_fields': _SEG_FIELDS_SITE},
+    properties=['C03', 'C17', 'C18', 'C02'],
+)
+
+# ---- parse_component / parse_field: same shape as parse_segment (constructor, the list parser one level down, the attach)
+for _cls in ('Component', 'Field', 'SubComponent'):
+    contract(
+        'hl7apy.core:%s.__init__' % _cls,
+        sig=({'self': _cls, 'name': 'str?', 'datatype': 'str?', 'parent': 'Element?', 'reference': 'any', 'version': 'str?',
+              'validation_level': 'int?', 'traversal_parent': 'Element?'} if _cls != 'SubComponent' else
+             {'self': _cls, 'name': 'str?', 'datatype': 'str?', 'value': 'any', 'parent': 'Element?', 'reference': 'any',
+              'version': 'str?', 'validation_level': 'int?', 'traversal_parent': 'Element?'}),
+        returns='none',
+        ensures=[('version', 'implies(version is not None, self.version == version)'),
+                 ('level', 'implies(validation_level is not None, self.validation_level == validation_level)'),
+                 ('detached', 'implies(parent is None and traversal_parent is None, self._parent is None and self._traversal_parent is None)'),
+                 ('own_children', 'self.children.element is self and sep(self.children)')],
+        raises={'Exception': {}, 'InvalidName': {}},
+        modifies=['self.*'], allocates=True, interface=True, verify=False,
+        notes='assumed where the parser builds the element (Element.__init__, which does the threading, is proved)',
+    )
+
+contract(
+    'hl7apy.core:Element.__setattr__[datatype]',
+    sig={'self': 'Element', 'name': '="datatype"', 'value': 'str?'},
+    returns='none',
+    ensures=[('children_kept', 'self.children is old(self.children) and self._parent is old(self._parent) and '
+                               'self._traversal_parent is old(self._traversal_parent)')],
+    raises={'Exception': {}},
+    modifies=['self.*'], allocates=['Dd', 'Dv.V', 'Dv.R', 'La.S', 'La.V', 'Ll'], interface=True, verify=False,
+    notes='the datatype setter (_set_datatype rebuilds the structure maps: new dicts and name lists): assumed not to touch '
+          'the links of any element',
+)
+
+_CMP_CTOR_SITE = [
+    ('version_passed_on', 'kwarg("version") == old(%s)' % _V),
+    ('level_passed_on', 'kwarg("validation_level") == old(%s)' % _L),
+    ('reference_passed_on', 'kwarg("reference") == old(reference)'),
+]
+_CMP_SUBS_SITE = [
+    ('datatype_of_the_component', 'arg(1) == component._datatype'),
+    ('version_passed_on', 'arg(2) == old(%s)' % _V),
+    ('encoding_chars_passed_on', 'implies(old(encoding_chars) is not None, arg(3) is old(encoding_chars))'),
+    ('level_passed_on', 'arg(4) == old(%s)' % _L),
+    ('structure_of_the_component', 'arg(5) is component.structure_by_name'),
+]
+_DEFAULTS_OK = ' and '.join('dhas(global_("hl7apy:%s"), "%s")' % (g, k) for g in ('_DEFAULT_ENCODING_CHARS', '_DEFAULT_ENCODING_CHARS_27')
+                            for k in ('FIELD', 'REPETITION', 'COMPONENT', 'SUBCOMPONENT'))
+contract(
+    'hl7apy.parser:parse_component[impl]',
+    sig={'text': 'str', 'name': 'str?', 'datatype': 'str?', 'version': 'str?', 'encoding_chars': 'dict[str]?',
+         'validation_level': 'any', 'reference': 'any'},
+    returns='Element',
+    requires=['implies(encoding_chars is not None, dhas(encoding_chars, "SUBCOMPONENT"))', _DEFAULTS_OK],
+    ensures=[('fresh', 'is_fresh(result)')],
+    raises={'Exception': {}},
+    modifies=None, allocates=True,
+    call_asserts={'Component': _CMP_CTOR_SITE, 'parse_subcomponents': _CMP_SUBS_SITE},
+    # PARKED (not run): all call-site obligations discharge, but the precondition of `component.children = <list>` (every item
+    # detached) stays undecided behind the quantified frames of three assumed calls in a row (constructor, list parser,
+    # datatype setter); parse_segment, whose body has one call less, is proved
+    properties=[],
+)
+
+_FLD_CTOR_SITE = [
+    ('version_passed_on', 'kwarg("version") == old(%s)' % _V),
+    ('level_passed_on', 'kwarg("validation_level") == old(%s)' % _L),
+]
+_FLD_CMPS_SITE = [
+    ('datatype_of_the_field', 'arg(1) == field._datatype'),
+    ('version_passed_on', 'arg(2) == old(%s)' % _V),
+    ('encoding_chars_passed_on', 'implies(old(encoding_chars) is not None, arg(3) is old(encoding_chars))'),
+    ('level_passed_on', 'arg(4) == old(%s)' % _L),
+    ('structure_of_the_field', 'arg(5) is field.structure_by_name'),
+]
+contract(
+    'hl7apy.parser:parse_field[impl]',
+    sig={'text': 'str', 'name': 'str?', 'version': 'str?', 'encoding_chars': 'dict[str]?', 'validation_level': 'any',
+         'reference': 'any', 'force_varies': 'bool'},
+    returns='Element',
+    requires=['implies(encoding_chars is not None, dhas(encoding_chars, "COMPONENT"))', _DEFAULTS_OK],
+    ensures=[('fresh', 'is_fresh(result)')],
+    raises={'Exception': {}},
+    modifies=None, allocates=True,
+    call_asserts={'Field': _FLD_CTOR_SITE, 'parse_components': _FLD_CMPS_SITE},
+    properties=[],      # PARKED for the same reason as parse_component[impl]
 )
